@@ -43,7 +43,9 @@ def SHARD_ENV(j, shard):
 
 def case_of(seed, g, k):
     idx = g * 1000 + k
-    if k % 3 == 0:
+    if k % 4 == 3:
+        desc = {'fam': 'quantised', 's': seed, 'p': NUM, 'i': idx, 'k': {'nce': 1 + k % 2, 'lookback': 100}}
+    elif k % 3 == 0:
         desc = {'fam': 'generic', 's': seed, 'p': NUM, 'i': idx, 'k': {'big': k % 2 == 0}}
     elif k % 3 == 1:
         desc = {'fam': 'bimodal', 's': seed, 'p': NUM, 'i': idx, 'k': {'third': k % 2 == 0, 'nce': 1 + k % 3}}
